@@ -366,7 +366,7 @@ func (c *Conn) handleFrames(now time.Time, dgram *datagram, ptype packetType, sp
 			if !frameOK(c, ptype, __01) {
 				return
 			}
-			_, _, n = consumeStreamDataBlockedFrame(payload)
+			n = c.handleStreamDataBlockedFrame(now, payload)
 		case frameTypeNewConnectionID:
 			if !frameOK(c, ptype, __01) {
 				return
@@ -484,6 +484,21 @@ func (c *Conn) handleMaxStreamDataFrame(now time.Time, payload []byte) int {
 			return -1
 		}
 	}
+	return n
+}
+
+func (c *Conn) handleStreamDataBlockedFrame(now time.Time, payload []byte) int {
+	id, _, n := consumeStreamDataBlockedFrame(payload)
+	if n < 0 {
+		return -1
+	}
+	// A STREAM_DATA_BLOCKED frame names a stream the peer sends on. Like any other
+	// frame naming a stream it creates the stream if necessary, and is subject
+	// to the stream limit and stream state checks.
+	// https://www.rfc-editor.org/rfc/rfc9000.html#section-3.2-4
+	// https://www.rfc-editor.org/rfc/rfc9000.html#section-4.6-3
+	// https://www.rfc-editor.org/rfc/rfc9000.html#section-19.13-2
+	c.streamForFrame(now, id, recvStream)
 	return n
 }
 
